@@ -316,6 +316,9 @@ pub fn value_for(stamp: u64, key_idx: u8, class: u8, cfg: &Cfg) -> Vec<u8> {
     if class == 4 {
         return vec![];
     }
+    if class == 11 {
+        return value_with_embedded_log_record(&base);
+    }
     if class == 3 {
         // 3000 incompressible bytes: a table block of its own, 1.5 filter ranges (2 KiB) long
         let mut x: u64 = 0x9E37_79B9_7F4A_7C15 ^ (stamp << 8) ^ key_idx as u64;
@@ -336,6 +339,56 @@ pub fn value_for(stamp: u64, key_idx: u8, class: u8, cfg: &Cfg) -> Vec<u8> {
         v.push(if i < 8 { b } else { b ^ ((i / 8) as u8) });
         i += 1;
     }
+    v
+}
+
+/// Key and value of the write that a log reader must never deliver: it exists only as bytes
+/// inside another write's value (value class 11).
+pub const GHOST_KEY: &[u8] = b"f";
+pub const GHOST_VALUE: &[u8] = b"GHOST";
+
+/// A 600-byte value whose bytes 498.. are the complete image of a physical log record (written by
+/// RainDB's own log writer) that holds a one-operation batch `put f = GHOST`. As the value of a put
+/// with a one-byte key the write-ahead-log record is 7 + 614 (0x0266) bytes long and the image
+/// starts 512 bytes into its payload: a reader that believes a damaged length field (low byte
+/// zeroed: 0x0200) and resumes parsing right behind the bytes that length covers lands exactly on
+/// the image and delivers a write that was never made. Everything behind the image is zero.
+fn value_with_embedded_log_record(base: &[u8]) -> Vec<u8> {
+    use crate::vfs::VerifFs;
+    use raindb::fs::FileSystem;
+    use std::io::Read;
+    use std::path::Path;
+    let mut payload: Vec<u8> = vec![];
+    payload.extend_from_slice(&500u64.to_le_bytes()); // starting sequence number
+    payload.push(1); // one operation
+    payload.push(1); // Put
+    payload.push(GHOST_KEY.len() as u8);
+    payload.extend_from_slice(GHOST_KEY);
+    payload.push(GHOST_VALUE.len() as u8);
+    payload.extend_from_slice(GHOST_VALUE);
+    let fs = VerifFs::new();
+    let _ = fs.create_dir_all(Path::new("/scratch"));
+    let path = Path::new("/scratch/image.log");
+    let mut image: Vec<u8> = vec![];
+    {
+        let mut w = raindb::verif::VerifLogWriter::new(std::sync::Arc::new(fs.clone()) as std::sync::Arc<dyn FileSystem>, path, false).expect("scratch log writer");
+        w.append(&payload).expect("scratch log append");
+    }
+    if let Ok(mut f) = fs.open_file(path) {
+        let mut buf = vec![0u8; 64];
+        loop {
+            match f.read(&mut buf) {
+                Ok(0) | Err(_) => break,
+                Ok(n) => image.extend_from_slice(&buf[..n]),
+            }
+        }
+    }
+    let mut v = vec![0x55u8; 600];
+    v[..base.len()].copy_from_slice(base);
+    for b in v[498..].iter_mut() {
+        *b = 0;
+    }
+    v[498..498 + image.len()].copy_from_slice(&image);
     v
 }
 
